@@ -1,3 +1,268 @@
-/-! # C12 — property theorems (stub: filled in when the property's model is built) -/
+import ScenicModel.Lemmas.SimTop
+import ScenicModel.Gen.RunOrder
+import ScenicModel.Props.C12Co
+/-! # C12 — simulation steps run in the documented order and stop at the documented step
+
+Property theorems about the executable model `Scenic.SimLoop.simulate`
+(`Model/SimCo.lean`, `Model/SimLoop.lean`), for **every** program of the dynamic fragment,
+every agent schedule `sched : clock → number of agents → order`, and every value of the two
+fuel parameters.  The specification of the documented order is the automaton of
+`Model/SimSpec.lean`, which does not mention the model.
+
+Side conditions (`gen_*`) are about the data regenerated from `/repo` on every run
+(`Gen/RunOrder.lean`); the `_current` theorems are the instances for that data. -/
 namespace Scenic.C12
+open Scenic.SimLoop
+
+/-! ## side conditions on the generated data -/
+
+/-- the phases of one iteration of `Simulation._run` are in the documented order -/
+theorem gen_run_order : Scenic.Gen.runOrder = Phase.documented := by decide
+
+/-- item of the numbered procedure of `dynamic_scenarios.rst` a phase belongs to -/
+def docItem : Phase → String
+  | .scen => "scenarios" | .record => "record" | .monitors => "monitors"
+  | .retPending | .termSimWhen | .maxSteps => "terminationChecks"
+  | .behaviors => "behaviors" | .actions => "actions" | .simStep => "simulatorStep"
+  | .clock => "clock" | .update => "update"
+
+def dedupAdj : List String → List String
+  | a :: b :: r => if a = b then dedupAdj (b :: r) else a :: dedupAdj (b :: r)
+  | l => l
+
+/-- the source order of `_run`, coarsened to the items of the reference page, is the numbered
+    procedure of the reference page (items 1–9; item 10 is what happens after the loop) -/
+theorem gen_doc_order :
+    dedupAdj (Scenic.Gen.runOrder.map docItem) ++ ["finish"] = Scenic.Gen.docOrder := by decide
+
+/-- the checks of `DynamicScenario._step` are in the order the model (and item 1 a–d of the
+    reference page) has them -/
+theorem gen_step_order :
+    Scenic.Gen.stepOrder = ["requirements", "timeLimit", "elapsed", "compose", "composeDone", "terminateWhen"]
+    ∧ Scenic.Gen.docStepOrder.filter (fun x => Scenic.Gen.stepOrder.contains x)
+      = Scenic.Gen.stepOrder.filter (fun x => Scenic.Gen.docStepOrder.contains x) := by decide
+
+/-- all three time limits are tested with `>=`, and limits in seconds are divided by the time step -/
+theorem gen_time_ops :
+    Scenic.Gen.opScenarioTimeLimit = "GtE" ∧ Scenic.Gen.opMaxSteps = "GtE" ∧ Scenic.Gen.opDoFor = "GtE"
+    ∧ Scenic.Gen.secondsDivide = true := by decide
+
+/-! ## step order -/
+
+/-- **Step order.**  For every program, schedule and fuel, the event log of a run is accepted by
+    the automaton of the documented order (`Model/SimSpec.lean`): in every executed step the
+    scenario events (compose blocks with their requirement / time-limit / termination checks)
+    come first, then the records and the trajectory entry, then the monitors, then the
+    simulation-termination checks, then one turn per scheduled agent in schedule order (every
+    behavior event belongs to the agent whose turn it is), then the actions, one simulator step
+    and the update with the incremented clock; after the termination only `stop` events and the
+    final records follow.  A run that was cut short (rejection, fuel) has a log that is a prefix
+    of such a log. -/
+theorem step_order (P : Prog) (S : Sem) (cf fuel : Nat) (sched : Nat → Nat → List Nat)
+    (hS : S.order = Phase.documented) :
+    ∃ s, DS.start.run (simulate P S cf fuel sched).log = some s ∧
+      ((simulate P S cf fuel sched).term.isSome = true →
+        s.final = true ∧ s.time = (simulate P S cf fuel sched).time) := by
+  obtain ⟨s, h1, h2⟩ := simulate_order P S cf fuel sched hS
+  refine ⟨s, h1, fun ht => ?_⟩
+  cases hterm : (simulate P S cf fuel sched).term with
+  | none => simp [hterm] at ht
+  | some tt => exact ⟨(h2 tt hterm).1, (h2 tt hterm).2.1⟩
+
+/-- the same for the phase order and flags extracted from the current source -/
+theorem step_order_current (P : Prog) (cf fuel : Nat) (sched : Nat → Nat → List Nat) :
+    ∃ s, DS.start.run (simulate P Scenic.Gen.sem cf fuel sched).log = some s ∧
+      ((simulate P Scenic.Gen.sem cf fuel sched).term.isSome = true →
+        s.final = true ∧ s.time = (simulate P Scenic.Gen.sem cf fuel sched).time) :=
+  step_order P _ cf fuel sched gen_run_order
+
+/-- terminated runs are `wellOrdered` -/
+theorem terminated_wellOrdered (P : Prog) (S : Sem) (cf fuel : Nat) (sched : Nat → Nat → List Nat)
+    (hS : S.order = Phase.documented) (ht : (simulate P S cf fuel sched).term.isSome = true) :
+    wellOrdered (simulate P S cf fuel sched).log = true := by
+  obtain ⟨s, h1, h2⟩ := step_order P S cf fuel sched hS
+  unfold wellOrdered
+  rw [h1]
+  exact (h2 ht).1
+
+/-! ## one state per step, one action-log entry per executed step -/
+
+/-- **Lengths.**  A run that terminated at clock `T` has appended `T + 1` states to the
+    trajectory and `T` entries to the action log, and has run the simulator for `T` steps. -/
+theorem trajectory_len (P : Prog) (S : Sem) (cf fuel : Nat) (sched : Nat → Nat → List Nat)
+    (hS : S.order = Phase.documented) (ht : (simulate P S cf fuel sched).term.isSome = true) :
+    (simulate P S cf fuel sched).trajLen = (simulate P S cf fuel sched).time + 1 ∧
+    (simulate P S cf fuel sched).actLen = (simulate P S cf fuel sched).time ∧
+    (simulate P S cf fuel sched).simSteps = (simulate P S cf fuel sched).time := by
+  obtain ⟨s, h1, h2⟩ := step_order P S cf fuel sched hS
+  obtain ⟨hf, hT⟩ := h2 ht
+  obtain ⟨c1, c2, c3⟩ := DS.run_counts _ _ _ h1
+  unfold Result.trajLen Result.actLen Result.simSteps
+  rw [← hT]
+  cases s <;> simp_all [DS.final, DS.trajs, DS.actsN, DS.sims, DS.time]
+
+theorem trajectory_len_current (P : Prog) (cf fuel : Nat) (sched : Nat → Nat → List Nat)
+    (ht : (simulate P Scenic.Gen.sem cf fuel sched).term.isSome = true) :
+    (simulate P Scenic.Gen.sem cf fuel sched).trajLen = (simulate P Scenic.Gen.sem cf fuel sched).time + 1 ∧
+    (simulate P Scenic.Gen.sem cf fuel sched).actLen = (simulate P Scenic.Gen.sem cf fuel sched).time ∧
+    (simulate P Scenic.Gen.sem cf fuel sched).simSteps = (simulate P Scenic.Gen.sem cf fuel sched).time :=
+  trajectory_len P _ cf fuel sched gen_run_order ht
+
+/-! ## the step limit and `terminate simulation when` -/
+
+/-- **Step limit.**  With a step limit `maxSteps ≠ 0`, no run goes beyond clock `maxSteps`; a run
+    that ends with `timeLimit` ends at exactly `maxSteps`; a run ended by a behavior ended strictly
+    before it (the limit is tested before the behaviors run). -/
+theorem step_limit_exact (P : Prog) (S : Sem) (cf fuel : Nat) (sched : Nat → Nat → List Nat)
+    (hS : S.order = Phase.documented) (hm : P.maxSteps ≠ 0) (tt : Term)
+    (ht : (simulate P S cf fuel sched).term = some tt) :
+    (simulate P S cf fuel sched).time ≤ P.maxSteps ∧
+    (tt = .timeLimit → (simulate P S cf fuel sched).time = P.maxSteps) ∧
+    (tt = .terminatedByBehavior → (simulate P S cf fuel sched).time < P.maxSteps) := by
+  obtain ⟨s, _, h2⟩ := simulate_order P S cf fuel sched hS
+  obtain ⟨_, _, hT, hH⟩ := h2 tt ht
+  have hle : (simulate P S cf fuel sched).time ≤ P.maxSteps := by
+    by_cases h : (simulate P S cf fuel sched).time ≤ P.maxSteps
+    · exact h
+    · exact absurd ⟨hm, Nat.le_refl _⟩ (hH P.maxSteps (by omega)).2
+  refine ⟨hle, ?_, ?_⟩
+  · rintro rfl
+    have := hT.2.2
+    omega
+  · rintro rfl
+    have := hT.2
+    unfold NotMax at this
+    omega
+
+/-- **`terminate simulation when`.**  The run never executes a step at a clock value at which one
+    of the conditions holds; it ends with `simulationTerminationCondition` only at a clock value at
+    which one holds; and when it ends at step 4/5 for another reason, none holds. -/
+theorem terminate_simulation_when_exact (P : Prog) (S : Sem) (cf fuel : Nat) (sched : Nat → Nat → List Nat)
+    (hS : S.order = Phase.documented) (tt : Term) (ht : (simulate P S cf fuel sched).term = some tt) :
+    (∀ t' < (simulate P S cf fuel sched).time, ∀ c ∈ P.termSimWhen, P.code.cond c t' = false) ∧
+    (tt = .simulationTerminationCondition →
+      ∃ c ∈ P.termSimWhen, P.code.cond c (simulate P S cf fuel sched).time = true) ∧
+    (tt = .timeLimit ∨ tt = .terminatedByBehavior →
+      ∀ c ∈ P.termSimWhen, P.code.cond c (simulate P S cf fuel sched).time = false) := by
+  obtain ⟨s, _, h2⟩ := simulate_order P S cf fuel sched hS
+  obtain ⟨_, _, hT, hH⟩ := h2 tt ht
+  refine ⟨fun t' ht' => (hH t' ht').1, ?_, ?_⟩
+  · rintro rfl; exact hT
+  · rintro (rfl | rfl) <;> exact hT.1
+
+/-! ## `terminate after` and `terminate when` of the top-level scenario -/
+
+/-- **`terminate after` (top-level scenario).**  With a time limit of `l` steps on the top-level
+    scenario (a limit in seconds is `l = ⌈seconds / timestep⌉`, `secToSteps_spec`), no terminated run
+    goes beyond clock `l`: the limit is tested at the start of the scenario's step, before its compose
+    block, and the simulation then ends in the same iteration (after the records and monitors). -/
+theorem terminate_after_top (P : Prog) (S : Sem) (cf fuel : Nat) (sched : Nat → Nat → List Nat)
+    (hS : S.order = Phase.documented) (tt : Term) (ht : (simulate P S cf fuel sched).term = some tt)
+    (l : Nat) (hl : (P.scens.getD 0 default).limit = some l) :
+    (simulate P S cf fuel sched).time ≤ l := by
+  have h := simulate_top P S cf fuel sched hS tt ht
+  by_cases hle : (simulate P S cf fuel sched).time ≤ l
+  · exact hle
+  · have := (h l (by omega)).1 l hl
+    omega
+
+/-- **`terminate when` (top-level scenario).**  No step is executed after a clock value at which one
+    of the top-level scenario's `terminate when` conditions held at the end of the scenario's step. -/
+theorem terminate_when_top (P : Prog) (S : Sem) (cf fuel : Nat) (sched : Nat → Nat → List Nat)
+    (hS : S.order = Phase.documented) (tt : Term) (ht : (simulate P S cf fuel sched).term = some tt) :
+    ∀ t' < (simulate P S cf fuel sched).time, ∀ c ∈ (P.scens.getD 0 default).termWhen,
+      P.code.cond c t' = false :=
+  fun t' ht' => (simulate_top P S cf fuel sched hS tt ht t' ht').2
+
+/-- a two-agent program with a monitor, a sub-scenario and a `do … for` -/
+def demo : Prog where
+  code := ⟨[.ge 2], [[.log 0, .take 1, .doSub [1] (.forT 2), .term], [.forever [.take 7]]]⟩
+  monCls := [[.wait, .log 5, .doSub [] (.untilC 0), .termSim]]
+  scens := [⟨[0, 1], [0], some [.wait, .doSub [1] (.forT 2), .log 9, .forever [.wait]], none, [], true⟩,
+            ⟨[1], [], none, some 5, [], false⟩]
+  termSimWhen := [0]
+  recInit := true
+  recs := 1
+  recFinal := true
+  maxSteps := 6
+
+-- non-vacuity: the demo terminates (by the monitor's `wait until`, at clock 2, before the
+-- `terminate simulation when` of the same clock is looked at), so the hypotheses of the theorems
+-- above are satisfiable; a reversed schedule is a schedule
+example : (simulate demo Sem.documented 100 100 (fun _ n => (List.range n).reverse)).term
+    = some .terminatedByMonitor := by decide +kernel
+example : (simulate demo Sem.documented 100 100 (fun _ n => (List.range n).reverse)).time = 2 := by
+  decide +kernel
+example : (simulate { demo with monCls := [[.forever [.wait]]] } Sem.documented 100 100 (fun _ n => List.range n)).term
+    = some .simulationTerminationCondition := by decide +kernel
+example : (simulate { demo with monCls := [[.forever [.wait]]], termSimWhen := [] } Sem.documented 100 100
+    (fun _ n => List.range n)).term = some .terminatedByBehavior := by decide +kernel
+example : (simulate { demo with monCls := [[.forever [.wait]]], termSimWhen := [], maxSteps := 3 } Sem.documented 100 100
+    (fun _ n => List.range n)).term = some .timeLimit := by decide +kernel
+-- a top-level `terminate after 2 steps` / `terminate when clock >= 2`
+def demoTop (limit : Option Nat) (tw : List Nat) : Prog :=
+  { demo with monCls := [[.forever [.wait]]], termSimWhen := [], scens := [⟨[0, 1], [], none, limit, tw, true⟩] }
+example : (simulate (demoTop (some 2) []) Sem.documented 100 100 (fun _ n => List.range n)).time = 2 := by
+  decide +kernel
+example : (simulate (demoTop none [0]) Sem.documented 100 100 (fun _ n => List.range n)).term
+    = some .scenarioComplete := by
+  decide +kernel
+
+/-! ## the two places where the unchanged code leaves the documented semantics (negation witnesses)
+
+The model has both behaviours, selected by the two flags of `Sem` that are regenerated from the
+source.  Under the documented semantics (`Sem.documented`) the constructs behave as the reference
+says; with a flag set (the code as it is now) they do not.  The same two programs are replayed on the
+real code by the check (`construct:subscenario-terminate-when`, `construct:subscenario-monitor-terminate`). -/
+
+/-- `Main: compose: do Sub(); log 7; wait; wait` and `Sub: terminate when clock >= 1` -/
+def subTerminateWhen : Prog where
+  code := ⟨[.ge 1], []⟩
+  monCls := []
+  scens := [⟨[], [], some [.doSub [1] .none, .log 7, .wait, .wait], none, [], false⟩,
+            ⟨[], [], none, none, [0], false⟩]
+  termSimWhen := []
+  recInit := false
+  recs := 0
+  recFinal := false
+  maxSteps := 6
+
+/-- documented: the sub-scenario ends at clock 1, the parent goes on (marker, two waits) and completes at clock 3 -/
+theorem subscenario_terminate_when_documented :
+    (simulate subTerminateWhen Sem.documented 50 50 (fun _ n => List.range n)).term = some .scenarioComplete ∧
+    (simulate subTerminateWhen Sem.documented 50 50 (fun _ n => List.range n)).time = 3 ∧
+    Ev.c 0 7 ∈ (simulate subTerminateWhen Sem.documented 50 50 (fun _ n => List.range n)).log := by
+  decide +kernel
+
+/-- the code as it is (`dynReqAsTemporal`): the same program is rejected in the sub-scenario's first step -/
+theorem subscenario_terminate_when_witness :
+    (simulate subTerminateWhen ⟨Phase.documented, true, false⟩ 50 50 (fun _ n => List.range n)).abort = some .rejected ∧
+    (simulate subTerminateWhen ⟨Phase.documented, true, false⟩ 50 50 (fun _ n => List.range n)).time = 0 := by
+  decide +kernel
+
+/-- `Main: compose: do Sub(); log 7; wait; wait` and `Sub: require monitor M()`, `M: wait; terminate` -/
+def subMonitorTerminate : Prog where
+  code := ⟨[], []⟩
+  monCls := [[.wait, .term]]
+  scens := [⟨[], [], some [.doSub [1] .none, .log 7, .wait, .wait], none, [], false⟩,
+            ⟨[], [0], none, none, [], false⟩]
+  termSimWhen := []
+  recInit := false
+  recs := 0
+  recFinal := false
+  maxSteps := 6
+
+/-- documented: the monitor stops the sub-scenario at clock 1, the parent continues at clock 2 and completes at clock 4 -/
+theorem subscenario_monitor_terminate_documented :
+    (simulate subMonitorTerminate Sem.documented 50 50 (fun _ n => List.range n)).term = some .scenarioComplete ∧
+    (simulate subMonitorTerminate Sem.documented 50 50 (fun _ n => List.range n)).time = 4 := by
+  decide +kernel
+
+/-- the code as it is (`monTermPropagates`): the whole simulation ends at clock 1 with `terminatedByMonitor` -/
+theorem subscenario_monitor_terminate_witness :
+    (simulate subMonitorTerminate ⟨Phase.documented, false, true⟩ 50 50 (fun _ n => List.range n)).term
+      = some .terminatedByMonitor ∧
+    (simulate subMonitorTerminate ⟨Phase.documented, false, true⟩ 50 50 (fun _ n => List.range n)).time = 1 := by
+  decide +kernel
+
 end Scenic.C12
